@@ -109,6 +109,9 @@ void harness(void)
         FN(save_key)(&pk, saved);
         for (i = 0; i < 40; ++i) same &= (saved[i] == sx_get(ke, i)) && (saved[40 + i] == sx_get(ka, i));
         CHECK(same, "saved key is the canonical byte string of both pre-computed states");
+        ls_to_canon(&pk.ke, t); same = 1; for (i = 0; i < 5; ++i) same &= (t[i] == ke[i]);
+        ls_to_canon(&pk.ka, t); for (i = 0; i < 5; ++i) same &= (t[i] == ka[i]);
+        CHECK(same, "saving leaves the pre-computed key object unchanged");
         FN(load_key)(&pk2, saved);
         FN(save_key)(&pk2, saved2);
         same = vh_eq_bytes(saved, saved2, 80);
